@@ -64,6 +64,14 @@ impl PublisherQos {
             entity_factory: EntityFactoryQosPolicy::const_default(),
         }
     }
+
+    pub(crate) fn check_immutability(&self, other: &Self) -> DdsResult<()> {
+        if self.presentation != other.presentation {
+            Err(DdsError::ImmutablePolicy)
+        } else {
+            Ok(())
+        }
+    }
 }
 
 impl Default for PublisherQos {
